@@ -270,7 +270,8 @@ func runExchange(l *lab.SocketLab, lc labCfg, ec *exchangeCase, c *conn) string 
 	if err != nil {
 		cc.Close()
 		c.cc = nil
-		if ec.Stream {
+		if ec.Stream && isTimeout(err) {
+			// (a connection that ENDS instead is a cut response, not a buffered one: reported as such below)
 			return fmt.Sprintf("streaming: backend flushed the response head (head only: %v; first part %d bytes) and is waiting, but the client received no response head within %v (%v): the proxy is buffering the response", script.BarrierAfterHead, script.Parts[0], headDeadline, err)
 		}
 		return fmt.Sprintf("client could not read a response head: %v (interim seen %v)", err, out.Interim)
@@ -286,6 +287,9 @@ func runExchange(l *lab.SocketLab, lc labCfg, ec *exchangeCase, c *conn) string 
 		if err != nil {
 			cc.Close()
 			c.cc = nil
+			if !isTimeout(err) {
+				return fmt.Sprintf("response body could not be read to its end: %v (the backend flushed %d bytes and is waiting; the client's connection ended before it had read them)", err, script.Parts[0])
+			}
 			return fmt.Sprintf("streaming: backend flushed %d bytes and is waiting, but the client could not read them within %v (%v): the proxy is buffering the response", script.Parts[0], streamDeadline, err)
 		}
 		prefix = p
@@ -303,19 +307,34 @@ func runExchange(l *lab.SocketLab, lc labCfg, ec *exchangeCase, c *conn) string 
 		cc.Close()
 		c.cc = nil
 	}
+	viol, _ := judge(lc, &req, &script, exs, out)
+	return viol
+}
+
+// judge is the end-to-end oracle of one finished exchange: what the raw backend recorded against
+// what the raw client sent, and what the raw client received against what the backend script
+// produced. It returns a description of the first difference (or "") and the index of the backend
+// that served the exchange (-1 if none).
+func judge(lc labCfg, reqp *lab.RawRequest, scriptp *lab.RespScript, exs []*lab.Exchange, out *lab.RawResponse) (viol string, backend int) {
+	req, script := *reqp, *scriptp
 	var seen *lab.SeenRequest
-	var backend int
+	backend = -1
 	for i, ex := range exs {
 		if s := lab.SeenOf(ex); s != nil {
 			if seen != nil {
-				return "request was delivered to two backends"
+				return "request was delivered to two backends", backend
 			}
 			seen, backend = s, i
 		}
 	}
 	if seen == nil {
-		return fmt.Sprintf("request never reached a backend (client got status %d)", out.Status)
+		return fmt.Sprintf("request never reached a backend (client got status %d)", out.Status), backend
 	}
+	viol = judgeSeen(lc, req, script, seen, backend, out)
+	return viol, backend
+}
+
+func judgeSeen(lc labCfg, req lab.RawRequest, script lab.RespScript, seen *lab.SeenRequest, backend int, out *lab.RawResponse) string {
 	// ---------------- request side ----------------
 	if seen.Method != req.Method {
 		return fmt.Sprintf("method: sent %q, backend received %q", req.Method, seen.Method)
@@ -522,29 +541,4 @@ func shortStr(s string) string {
 		return s[:60] + fmt.Sprintf("…(%d bytes)…", len(s)) + s[len(s)-30:]
 	}
 	return s
-}
-
-// TestC01KnownFindings re-runs the fixed reproduction of every open finding of C01 and prints
-// its KNOWN-FINDING line while it still fails.
-func TestC01KnownFindings(t *testing.T) {
-	if lab.Replaying() || lab.Shard() != 0 {
-		t.Skip()
-	}
-	if lab.Open("request-body-close-race") {
-		lab.KnownFinding("request-body-close-race", fmt.Sprintf("schedule-dependent: a proxied request with a body occasionally gets a truncated/aborted response (server closes the request body at first response write while the transport's write loop still reads it); manifested %d time(s) in shard 0 of this run, each re-run cleanly", raceSeen))
-	}
-	if lab.Open("304-content-type-dropped") {
-		lc := labCfg{Strategy: "round_robin", Backends: 1, BasePaths: []string{""}}
-		l, err := lab.NewSocketLab(lc.Strategy, lab.SocketOpts{Backends: 1})
-		if err != nil {
-			t.Fatal(err)
-		}
-		defer l.Close()
-		id := l.NextCase()
-		l.ExpectAll(id, &lab.RespScript{Status: 304, Framing: "none", BarrierAfter: -1, Header: []lab.KV{{K: "Content-Type", V: "text/plain"}, {K: "ETag", V: "\"v1\""}}})
-		out, err := lab.Do(l.Addr, &lab.RawRequest{Method: "GET", Target: "/", Framing: "none", Header: []lab.KV{{K: "Host", V: "h"}, {K: "X-Verif-Case", V: id}}}, ioDeadline)
-		if err == nil && out.Status == 304 && out.Header.Get("Content-Type") == "" {
-			lab.KnownFinding("304-content-type-dropped", "backend answers 304 with 'Content-Type: text/plain'; the client receives the 304 without Content-Type (net/http's server suppresses it)")
-		}
-	}
 }
